@@ -615,7 +615,15 @@ type Config struct {
 }
 
 func (c *Config) FilePath() *pathlib.Path {
-	return pathlib.NewPath(*c.Dir).Join(*c.FileName).Clean()
+	filePath := pathlib.NewPath(*c.Dir).Join(*c.FileName).Clean()
+	// Mocks are grouped into output files by this path, so a relative and an
+	// absolute spelling of the same location must yield the same value.
+	if !filePath.IsAbsolute() {
+		if cwd, err := os.Getwd(); err == nil {
+			filePath = pathlib.NewPath(cwd).JoinPath(filePath).Clean()
+		}
+	}
+	return filePath
 }
 
 func (c *Config) ShouldExcludeSubpkg(pkgPath string) (bool, error) {
